@@ -974,6 +974,9 @@ func jsonComponent(r *hx.Run) {
 					t.Port = uint16(r.Rng.Intn(3))
 				case *icmp.ScanResult:
 					t.IP = ip
+					if t.ICMP == nil { // the processor always sets it; String() needs it
+						t.ICMP = &icmp.Response{}
+					}
 				case *socks5.ScanResult:
 					t.IP = ip
 					t.Port = uint16(r.Rng.Intn(3))
